@@ -1,2 +1,48 @@
-(** C18 - placeholder *)
-From VG Require Import Model.Serve.
+(** C18 - At most one backend dispatch per request, none if rejected.
+    Statements only; proofs in Proofs/ServeProofs.v, Proofs/ResponseProofs.v.
+
+    The dispatch decision [serve_head] is a single value: rejection ([DReject], [DNotFound]) carries no
+    handler at all; every other outcome names exactly one handler.  The response side then never
+    answers twice (C03). *)
+From VG Require Import Model.Bytes Model.Headers Model.RespMeta Model.Request Model.Serve Model.Response Gen.Generated.
+From VG Require Import Proofs.ServeProofs Proofs.ResponseProofs.
+Open Scope Z_scope.
+
+(** number of handlers the decision invokes *)
+Definition handlers_invoked (d : dispatch) : nat :=
+  match d with DReject _ _ | DNotFound => 0 | _ => 1 end.
+
+Theorem C18_at_most_one_dispatch : forall pf ff t r, (handlers_invoked (serve_head pf ff t r) <= 1)%nat.
+Proof. intros. unfold handlers_invoked. destruct (serve_head pf ff t r); auto. Qed.
+Print Assumptions C18_at_most_one_dispatch.
+
+(** Every validation failure - unclassifiable content type, unknown path without an unknown
+    handler, wrong method, unsupported stream type or HTTP version, malformed timeout, unknown
+    codec or compression - means no handler. *)
+Theorem C18_rejected_means_no_handler : forall pf ff t r st a,
+  validate pf t r = VError st a -> serve_head pf ff t r = DReject st a /\ handlers_invoked (serve_head pf ff t r) = 0%nat.
+Proof. intros pf ff t r st a V. unfold serve_head. rewrite V. auto. Qed.
+Print Assumptions C18_rejected_means_no_handler.
+
+Theorem C18_handler_needs_validation : forall pf ff t r,
+  handlers_invoked (serve_head pf ff t r) = 1%nat ->
+  (exists o, validate pf t r = VOk o) \/ (validate pf t r = VNotFound /\ tc_has_unknown t = true).
+Proof.
+  intros pf ff t r H. pose proof (serve_head_cases pf ff t r) as C.
+  destruct (serve_head pf ff t r); cbn in H; try discriminate.
+  - right. exact C.
+  - left. destruct C as (o & V & _). eauto.
+  - left. destruct C as (V & _). eauto.
+  - left. destruct C as (V & _). eauto.
+Qed.
+Print Assumptions C18_handler_needs_validation.
+
+(** ... and the one handler gets one responseWriter whose client sees exactly one response. *)
+Theorem C18_one_response : forall cx h s r wr res,
+  serve_response cx h s = (r, wr, res) -> res <> WPanic ->
+  exists code hd eh body tail fl,
+    c_out (r_core r) = DHead code hd eh :: body ++ tail ++ DDone :: fl /\
+    forallb (fun e => negb (is_head e) && negb (is_term e) && negb (is_done e)) body = true /\
+    (tail = [] \/ exists t, is_term t = true /\ tail = [t]) /\ forallb is_flush fl = true.
+Proof. exact finished_response_shape. Qed.
+Print Assumptions C18_one_response.
